@@ -217,6 +217,8 @@ def run(ctx):
         "mismatch_obligations": dict(oblc), "exception_lines": dict(exceptions.most_common(20)),
         "driver_summary": summary, "sanitizers": list(flags),
     })
+    import shutil
+    shutil.rmtree(wd, ignore_errors=True)       # ~60 MB of journals per run
     ctx.assumptions += [
         "the judge of `denotes the same` is exact: K1 equivB (polyhedral values), K2 equivB (grids), omega-reduced sets of polyhedra (powersets), "
         "pairs after the product's own reduction (products), token equality (syntactic objects); `all histories' of the real code is sampled",
